@@ -42,6 +42,9 @@ def modL(t):
     if z3.is_int_value(t):
         return t.as_long() % L
     e = eng()
+    rem = e.run_cache.setdefault('modL_remainders', {})
+    if t.get_id() in rem and rem[t.get_id()].eq(t):
+        return t                               # already a remainder mod L
     key = ('modL', t.get_id())
     hit = e.run_cache.get(key)
     if hit is not None and hit[0].eq(t):
@@ -50,6 +53,7 @@ def modL(t):
     r = e.fresh_int('rL')
     e.add(z3.And(t == q * L + r, r >= 0, r < L))
     e.run_cache[key] = (t, r)
+    rem[r.get_id()] = r
     return r
 
 
@@ -63,37 +67,150 @@ def _wrap256(t):
     return t - c * 2 ** 256
 
 
+def _key(b):
+    """identity of a byte string by the identity of its items: survives concatenation + slicing"""
+    if isinstance(b, SymBytes):
+        return tuple(map(id, b.b))
+    return ('obj', id(b))
+
+
+class _ByItems(dict):
+    """registry keyed by item identity; values are (bytes, payload...) tuples, `get` checks nothing else"""
+
+
+def _src(e):
+    return e.run_cache.setdefault('alg_src', {})
+
+
 def scalar_int(s):
+    """little-endian integer of scalar bytes; bytes produced by scalar_bytes map back to their integer term
+    directly (no digit round trip for the solver)"""
+    e = eng()
+    hit = _src(e).get(_key(s))
+    if hit is not None:
+        return hit[1]
+    if isinstance(s, SymBytes) and len(s) == 32 and not isinstance(s.b[31], int):
+        # clamp_scalar(reduced scalar): clearing bit 255 of a value < 2^253 is the identity
+        top = s.b[31]
+        rems = e.run_cache.get('modL_remainders', {})
+        for key, (rb, rt) in list(_src(e).items()):
+            if not isinstance(rb, SymBytes) or len(rb) != 32 or isinstance(rt, int) or rt.get_id() not in rems:
+                continue
+            if isinstance(rb.b[31], int) or not all(s.b[i] is rb.b[i] for i in range(31)):
+                continue
+            c = e.run_cache.get(('bitop', 'and', rb.b[31].get_id(), 0x7f))
+            if c is not None and isinstance(c[1], SymInt) and c[1].t.eq(top):
+                _src(e)[_key(s)] = (s, rt)
+                return rt
     return zi(from_bytes_model(s, 'little'))
+
+
+def _implied_equal(a, b, timeout_ms=5000):
+    """True if the path condition implies a == b (quick solver query; used to merge equal values so that later
+    byte-wise comparisons are syntactic)"""
+    e = eng()
+    if a is b or (z3.is_expr(a) and z3.is_expr(b) and a.eq(b)):
+        return True
+    # answers are cached across the re-executions of one exploration (a time-limited query must give the same
+    # answer when a path prefix is replayed, otherwise the replay would diverge)
+    key = ('implied_eq', a.get_id() if z3.is_expr(a) else a, b.get_id() if z3.is_expr(b) else b, e.nconstraints)
+    hit = e.persist.get(key)
+    if hit is not None:
+        return hit[0]
+    e.solver.set('timeout', timeout_ms)
+    try:
+        r = e._check(a != b)
+    finally:
+        e.solver.set('timeout', e.check_timeout_ms)
+    e.persist[key] = (r == z3.unsat, a, b)
+    return r == z3.unsat
+
+
+def _implied_different(a, b, timeout_ms=5000):
+    e = eng()
+    key = ('implied_ne', a.get_id() if z3.is_expr(a) else a, b.get_id() if z3.is_expr(b) else b, e.nconstraints)
+    hit = e.persist.get(key)
+    if hit is not None:
+        return hit[0]
+    e.solver.set('timeout', timeout_ms)
+    try:
+        r = e._check(a == b)
+    finally:
+        e.solver.set('timeout', e.check_timeout_ms)
+    e.persist[key] = (r == z3.unsat, a, b)
+    return r == z3.unsat
+
+
+def register_scalar(b):
+    """harness helper: a 32-byte scalar string whose value later results should be recognised as"""
+    e = eng()
+    _src(e)[_key(b)] = (b, zi(from_bytes_model(b, 'little')))
 
 
 def scalar_bytes(t):
     if isinstance(t, int):
         return t.to_bytes(32, 'little')
-    return int_to_bytes_model(SymInt(t, 253), 32, 'little')
+    e = eng()
+    out = int_to_bytes_model(SymInt(t, 253), 32, 'little')
+    _src(e)[_key(out)] = (out, t)
+    return out
 
 
 def point_int(p):
+    hit = _src(eng()).get(_key(p))
+    if hit is not None:
+        return hit[1]
     return zi(from_bytes_model(p, 'big'))
+
+
+def _known(e):
+    return e.run_cache.setdefault('alg_known_points', {})
+
+
+def mark_point(pbytes, valid=True):
+    """harness helper: declare an input point decodable (and valid, i.e. not the identity)"""
+    e = eng()
+    pi = point_int(pbytes)
+    e.add(z3.And(_decodable(pi), _validpt(pi)) if valid else _decodable(pi))
+    _known(e)[_key(pbytes)] = (pbytes, valid)
+
+
+def nondegenerate():
+    from .stubs import CONFIG
+    return getattr(CONFIG, 'assume_nondegenerate', False)
 
 
 def enc_point(k):
     """32 bytes of the point with discrete log k (k: term already reduced mod L)"""
     e = eng()
     kt = zi(k)
+    from .stubs import CONFIG
+    if getattr(CONFIG, 'alg_merge_points', False):
+        # eager merging: the same group element as an earlier result gets the same bytes (one small query per pair)
+        for (pb, pk) in e.run_cache.get('alg_points', []):
+            if _implied_equal(kt, pk, 4000):
+                return pb
     p = _enc(kt)
     # is_valid_point is false for the identity (libsodium rejects small-order points), true for k != 0
     e.add(z3.And(p >= 0, p < 2 ** 256, _dlog(p) == kt, _decodable(p), _validpt(p) == (kt != 0)))
-    return int_to_bytes_model(SymInt(p, 256), 32, 'big')
+    out = int_to_bytes_model(SymInt(p, 256), 32, 'big')
+    _known(e)[_key(out)] = (out, None)
+    _src(e)[_key(out)] = (out, p)
+    e.run_cache.setdefault('alg_k', {})[_key(out)] = (out, kt)
+    e.run_cache.setdefault('alg_points', []).append((out, kt))
+    return out
 
 
 def dlog_point(p, what='point'):
     """discrete log term of point bytes p; raises like libsodium for invalid points"""
     e = eng()
     e.run_cache['stubbed'] = True
+    kk = e.run_cache.get('alg_k', {}).get(_key(p))
+    if kk is not None:
+        return kk[1]                           # a point this model produced: its discrete log is known
     pi = point_int(p)
     e.add(z3.Implies(_validpt(pi), _decodable(pi)))
-    if not mk_bool(_decodable(pi)):
+    if _key(p) not in _known(e) and not mk_bool(_decodable(pi)):
         raise nacl.exceptions.RuntimeError('Unexpected library error')
     d = _dlog(pi)
     e.add(z3.And(d >= 0, d < L, _enc(d) == pi, _validpt(pi) == (d != 0)))
@@ -123,7 +240,14 @@ def _opq_points(*pts):
 
 def is_valid_point(p):
     _bytes32(p, 'point')
-    eng().run_cache['stubbed'] = True
+    e = eng()
+    e.run_cache['stubbed'] = True
+    hit = _known(e).get(_key(p))
+    if hit is not None and hit[1] is True:
+        return True
+    if hit is not None and hit[1] is None and nondegenerate():
+        e.add(_validpt(point_int(p)))            # results of group operations: not the identity (assumption)
+        return True
     return mk_bool(_validpt(point_int(p)))
 
 
@@ -145,7 +269,9 @@ def base_mult(s):
         eng().add(_validpt(point_int(r)))
         return r
     k = modL(scalar_int(s))
-    if mk_bool(zi(k) == 0):
+    if nondegenerate():
+        eng().add(zi(k) != 0)                  # assumption: no intermediate scalar is 0 mod L (probability 2^-252)
+    elif mk_bool(zi(k) == 0):
         raise nacl.exceptions.RuntimeError('Unexpected library error')
     return enc_point(k)
 
@@ -164,7 +290,9 @@ def scalar_mult_point(c, p):
     d = dlog_point(p)
     m = _M(zi(modL(scalar_int(c))), d)
     eng().add(z3.And(m >= 0, m < L))
-    if mk_bool(m == 0):
+    if nondegenerate():
+        eng().add(m != 0)
+    elif mk_bool(m == 0):
         raise nacl.exceptions.RuntimeError('Unexpected library error')
     return enc_point(m)
 
@@ -258,16 +386,56 @@ def ed25519_sign(seed, m):
 
 
 def ed25519_verify(A, m, sig):
-    """bool | SymBool: the RFC 8032 verification equation in the model (S canonical, R and A valid)"""
+    """bool | SymBool: the RFC 8032 verification equation in the model (S canonical, R and A decodable, A not of
+    small order).  Non-forking: the whole predicate is one term."""
+    e = eng()
     R, Sb = sig[:32], sig[32:]
     Ai, Ri = point_int(A), point_int(R)
     S = scalar_int(Sb)
-    pre = z3.And(_validpt(Ai), _decodable(Ai), _decodable(Ri), S < L)
-    if not mk_bool(pre):
-        return False
-    dA = dlog_point(A)
-    dR = dlog_point(R)
+    pre = z3.And(_validpt(Ai), _decodable(Ai), _decodable(Ri), S < L, S >= 0)
+    ks = e.run_cache.get('alg_k', {})
+    kA, kR = ks.get(_key(A)), ks.get(_key(R))
+    dA = kA[1] if kA is not None else _dlog(Ai)
+    dR = kR[1] if kR is not None else _dlog(Ri)
+    for pi, d, known in ((Ai, dA, kA), (Ri, dR, kR)):
+        if known is None:
+            e.add(z3.Implies(_decodable(pi), z3.And(d >= 0, d < L, _enc(d) == pi, _validpt(pi) == (d != 0))))
     k = _hram(R, A, m)
     mm = _M(zi(k), dA)
-    eng().add(z3.And(mm >= 0, mm < L))
-    return mk_bool(S == zi(modL(dR + mm)))
+    e.add(z3.And(mm >= 0, mm < L))
+    return mk_bool(z3.And(pre, S == zi(modL(dR + mm))))
+
+
+class XorShortcut:
+    """engine optimisation for the constant-time compare `bytes_are_same` on two values that the model knows as
+    integers (group elements / scalars): if the path condition implies that the integers are equal (different) the
+    result is True (False), decided by one small solver query instead of a byte-wise proof; otherwise the real
+    function runs.  Sound: both byte strings are the digits of their integer, and enc is injective."""
+
+    def __init__(self, pkg):
+        self.pkg = pkg
+
+    def __enter__(self):
+        F = self.pkg.functions
+        self.real = F.bytes_are_same
+        real = self.real
+
+        def bytes_are_same(b1, b2):
+            e = eng()
+            src = _src(e)
+            h1, h2 = src.get(_key(b1)), src.get(_key(b2))
+            if h1 is not None and h2 is not None and len(b1) == len(b2):
+                ks = e.run_cache.get('alg_k', {})
+                k1, k2 = ks.get(_key(b1)), ks.get(_key(b2))
+                a, b = (k1[1], k2[1]) if k1 is not None and k2 is not None else (h1[1], h2[1])
+                if _implied_equal(a, b):
+                    return True
+                if _implied_different(a, b):
+                    return False
+            return real(b1, b2)
+        F.bytes_are_same = bytes_are_same
+        return self
+
+    def __exit__(self, *a):
+        self.pkg.functions.bytes_are_same = self.real
+        return False
